@@ -3,12 +3,20 @@ import os, re, json, time
 import engine
 
 HARNESSES = {
-    'lru_cache': ['do_erase', 'do_prune', 'do_find', 'do_update', 'do_insert', 'do_insert_update'],
+    'fifo_cache': ['do_erase', 'do_find', 'do_update', 'do_insert', 'do_insert_update', 'find', 'erase', 'insert'],
+    'rr_cache': ['do_erase', 'do_prune', 'do_find', 'do_update', 'do_insert', 'do_insert_update', 'find', 'erase', 'insert'],
+    'mru_cache': ['do_erase', 'do_prune', 'do_find', 'do_update', 'do_insert', 'do_insert_update', 'find', 'erase', 'insert'],
+    'lru_cache': ['do_erase', 'do_prune', 'do_find', 'do_update', 'do_insert', 'do_insert_update', 'find', 'erase', 'insert'],
 }
+
+
+QUICK = ('do_update', 'do_find', 'do_prune')  # about two minutes each for the list-based caches
+QUICK_ALL = ('rr_cache',)                   # every unit of these containers finishes in about a minute
 
 
 class UUnit:
     def __init__(self, container, short, gen, timeout=7200):
+        self.spec = None
         self.container, self.short, self.gen, self.timeout = container, short, gen, timeout
         self.fn = '%s__%s' % (container, short)
         self.id = '%s/U' % self.fn
